@@ -6,7 +6,7 @@ DOC = {
     'not_decided': ['result equivalence under all interleavings', 'the relaxed PageTracker.tracking flag', 'crate-wide lock-graph acyclicity through generic/dyn calls and drop glue (not armed: the over-approximate graph would raise false alarms)'],
 }
 
-WITNESSES = ['C16W1Fail', 'C16W1Twin']
+WITNESSES = ['C16W1Fail', 'C16W1Twin', 'C16W2Fail', 'C16W2Twin']
 
 
 def rules(ctx):
@@ -19,3 +19,4 @@ def rules(ctx):
     S.c02_r4_who_frees(ctx)
     S.c02_r5_free_leaves_caches(ctx)
     S.tracker_state_rules(ctx)
+    S.savepoint_counter_rules(ctx)
